@@ -493,8 +493,17 @@ def r1_roles(ctx):
                     A.req(f"extrema [{arm}]: an abscissa table created on a later case is a copy of mm.ext_x, not the contributor's array", not er, x.node,
                           sorted(show(r) for r in er))
                 if not xs:
-                    need = (nox is False and not (cur_x is True and sets)) or (nox is True and cur_x is False)
-                    A.req(key, not need, e.node, "no update of curext.ext_x at the replaced rows")
+                    # a path that never asks `curext.ext_x is None` stands for both worlds of that test (the running table may well hold the
+                    # abscissae of an earlier case): with a contributor that has no abscissae the replaced rows must be marked unknown (NaN),
+                    # otherwise value and label belong to the new case and the abscissa to the one it replaced (an early `return` /
+                    # a guarded call that skips the store is "no store", not "nothing to do")
+                    stale = nox is True and cur_x is not True
+                    need = (nox is False and not (cur_x is True and sets)) or stale
+                    detail = "no update of curext.ext_x at the replaced rows"
+                    if stale:
+                        detail += (": mm.ext_x is None and curext.ext_x holds the abscissae of earlier cases; value and case label of the rows are "
+                                   "replaced, the abscissa of the previous case is kept (must become NaN)")
+                    A.req(key, (None if escapes(P, CUR) else False) if need else True, e.node, detail)
                 else:
                     x, tg = xs[0]
                     xi, xv = P.norm(x.index), P.norm(x.value)
